@@ -311,6 +311,9 @@ class Gen:
                 "kwargs": kwargs, "user": user, "store": store, "interleave": rng.randrange(0, 4)}
         if kind not in ("function", "init", "new") and len(levels) >= 2 and rng.random() < 0.2:
             case["diamond"] = True      # the root's contracts are inherited along two paths
+        if is_async and rng.random() < 0.3:
+            # driven by a hand-written scheduler that runs every step of the coroutine in another context
+            case["hop"] = True
         if not is_async and kind in ("function", "method", "staticmethod", "classmethod") and rng.random() < 0.1:
             # the decorated callable is a plain function that runs a coroutine function to completion
             # (functools.wraps adapter): to the contracts it is a sync callable like any other
